@@ -3,7 +3,7 @@
 # undo the patch straight afterwards.  Writes seeded/<id>/result.txt and prints one line per seed.
 cd /verif
 if [ -n "$(git -C /repo status --porcelain)" ]; then echo "/repo is not clean"; exit 2; fi
-for d in seeded/*/; do
+for d in seeded/${SEED_GLOB:-*}/; do
   id=$(basename $d)
   prop=$(/venv/bin/python -c "import json;m=json.load(open('$d/meta.json'));print((m.get('reported_by') or [m['breaks_property']])[0])")
   git -C /repo apply /verif/${d}patch.diff || { echo "$id: patch does not apply"; continue; }
